@@ -374,22 +374,22 @@ type CallAssert struct {
 }
 
 type FuncContract struct {
-	Key      string
-	Params   []string
-	Results  []string
-	Requires []*Clause
-	Ensures  []*Clause
-	Modifies []string
-	Loops    map[int]*LoopSpec
-	AtCalls  []*CallAssert
-	Trusted  bool
-	Panics   *Clause // condition under which a panic is the specified outcome
-	Inline   bool    // force inlining at call sites even though a contract exists
-	FreshResult bool // reference results are freshly allocated, non-nil objects
+	Key          string
+	Params       []string
+	Results      []string
+	Requires     []*Clause
+	Ensures      []*Clause
+	Modifies     []string
+	Loops        map[int]*LoopSpec
+	AtCalls      []*CallAssert
+	Trusted      bool
+	Panics       *Clause // condition under which a panic is the specified outcome
+	Inline       bool    // force inlining at call sites even though a contract exists
+	FreshResult  bool    // reference results are freshly allocated, non-nil objects
 	Interference []*Interference
-	Pkg      string  // package path the contract was declared in ("" for stubs)
-	File     string
-	Line     int
+	Pkg          string // package path the contract was declared in ("" for stubs)
+	File         string
+	Line         int
 }
 
 // Interference models other goroutines acting between this function's calls
@@ -656,7 +656,7 @@ func (ss *SpecSet) ParseSpecFile(path string, goComments bool, pkgPath string) e
 			if err != nil {
 				return err
 			}
-			cur.Interference = append(cur.Interference, &Interference{At: split(t[3:iw]), Writers: split(t[iw+len(" writers "):is]), Assume: c})
+			cur.Interference = append(cur.Interference, &Interference{At: split(t[3:iw]), Writers: split(t[iw+len(" writers ") : is]), Assume: c})
 		case "freshresult":
 			if cur == nil {
 				return fmt.Errorf("%s:%d: freshresult outside func", path, it.line)
